@@ -100,6 +100,27 @@ CHECKS = {
         note="Trusted: TLC, lib/gen_cfg.py, the JSON output parser; GOGREEMENT_ENV_ONLY unset; boolean flags limited to spellings package flag accepts.",
         technique="TLA+ model (Config.tla) checked by TLC; TLC-enumerated (env, argv) grids replayed into the real binary on a probe module",
         design="5/C18"),
+    "C06": dict(
+        text="TLC checks Pipeline.tla (the run as a schedule of (analyzer, package) actions with per-process configuration cache, per-package "
+             "results and per-(analyzer, package) facts) for every schedule, both drivers, both import shapes and every run set: named packages get "
+             "exactly the schedule-free function of their own and their direct imports' annotations; facts are read only after they were written "
+             "and only from direct imports; every fact-exporting action exports before it returns. Binding: seeded three-package programs whose "
+             "declaring package carries every annotation kind with encoding-stressing values are analysed under every run set by the in-process "
+             "driver (with and without gob round trip), the real binary and go vet, each compared with the expectation restricted to the named "
+             "packages; traces of the instrumented build under both drivers (also on the repository's integration fixtures) are validated by "
+             "PipelineTrace (import digests must equal export digests).",
+        note="Trusted: TLC, harness/internal/trace (wraps Analyzer.Run, no source change), lib/gen_xpkg.py expectations, go vet cache defeated by unique module paths.",
+        technique="TLA+ model (Pipeline.tla) checked by TLC; differential replay across drivers and run sets; trace validation (PipelineTrace.tla) of instrumented real runs",
+        design="5/C06"),
+    "C11": dict(
+        text="TLC explores every interleaving of the Start/End events of the 24 actions of a three-package run and checks that the diagnostics are "
+             "the schedule-free function L1 and that the configuration cache is written once. Behaviours sampled by TLC's simulator are forced onto "
+             "the real parallel checker driver through the blocking Run wrapper on a race-enabled build; diagnostics are compared and the recorded "
+             "trace is validated by PipelineTrace; plus parallel stress under the race detector and black-box runs of the unmodified binary "
+             "(GOMAXPROCS, -debug=p, permuted arguments, sub-run-sets with test variants) compared per package with a reference run.",
+        note="Trusted: TLC, the gate in harness/internal/trace; the race detector is dynamic (DESIGN.md section 8).",
+        technique="TLA+ model (Pipeline.tla) checked by TLC; TLC-generated schedules replayed into the real parallel driver (race build) + trace validation + black-box differential runs",
+        design="5/C11"),
 }
 
 NOT_YET = "check not built yet in this session; the property is in scope of the TLA+ specification (see DESIGN.md section 5) and will be claimed when its replay binding is in place"
